@@ -31,6 +31,9 @@ pub enum FaultKind {
     /// from the k-th operation on the end behaves as if the peer had closed the stream:
     /// receives report end of stream, sends/flushes report Disconnected
     Eof,
+    /// half-open: from the first send or flush at or after index k the sending side fails,
+    /// while the receiving side keeps working (and stays silent if nothing arrives)
+    SendOnly,
 }
 
 #[derive(Default)]
@@ -148,10 +151,12 @@ impl End {
         let mut sh = self.sh.borrow_mut();
         let me = &mut sh.ends[self.side];
         if let Some(k) = me.broken {
-            return Some(k);
+            if k != FaultKind::SendOnly || code != b'r' {
+                return Some(k);
+            }
         }
         if let Some((at, kind)) = me.fault {
-            if me.ops == at {
+            if me.broken.is_none() && ((kind != FaultKind::SendOnly && me.ops == at) || (kind == FaultKind::SendOnly && me.ops >= at && code != b'r')) {
                 me.broken = Some(kind);
                 return Some(kind);
             }
@@ -173,16 +178,16 @@ impl AsyncTransport for End {
             let sh = this.sh.borrow();
             (!sh.ends[this.side].inbox.is_empty(), sh.ends[1 - this.side].closed, sh.ends[this.side].broken)
         };
-        if let Some(k) = broken {
+        if let Some(k) = broken.filter(|k| *k != FaultKind::SendOnly) {
             return Poll::Ready(Err(match k {
-                FaultKind::Error => PipeError::Injected,
+                FaultKind::Error | FaultKind::SendOnly => PipeError::Injected,
                 FaultKind::Eof => PipeError::Disconnected,
             }));
         }
         if has {
             if let Some(k) = this.op(b'r') {
                 return Poll::Ready(Err(match k {
-                    FaultKind::Error => PipeError::Injected,
+                    FaultKind::Error | FaultKind::SendOnly => PipeError::Injected,
                     FaultKind::Eof => PipeError::Disconnected,
                 }));
             }
@@ -208,7 +213,7 @@ impl AsyncTransport for End {
         let mut sh = this.sh.borrow_mut();
         if let Some(k) = sh.ends[this.side].broken {
             return Poll::Ready(Err(match k {
-                FaultKind::Error => PipeError::Injected,
+                FaultKind::Error | FaultKind::SendOnly => PipeError::Injected,
                 FaultKind::Eof => PipeError::Disconnected,
             }));
         }
@@ -229,7 +234,7 @@ impl AsyncTransport for End {
         let this = self.get_mut();
         if let Some(k) = this.op(b's') {
             return Err(match k {
-                FaultKind::Error => PipeError::Injected,
+                FaultKind::Error | FaultKind::SendOnly => PipeError::Injected,
                 FaultKind::Eof => PipeError::Disconnected,
             });
         }
@@ -251,7 +256,7 @@ impl AsyncTransport for End {
         let this = self.get_mut();
         if let Some(k) = this.op(b'f') {
             return Poll::Ready(Err(match k {
-                FaultKind::Error => PipeError::Injected,
+                FaultKind::Error | FaultKind::SendOnly => PipeError::Injected,
                 FaultKind::Eof => PipeError::Disconnected,
             }));
         }
